@@ -81,6 +81,9 @@ def call(px, st, name, t, args, fid, fn):
         return [(st, pure(n.split('::')[-1], px.snap_args(st, args)))]
     if n.endswith('as std::ops::Deref>::deref'):
         return [(st, pure('deref', args))]
+    if n.endswith('as std::ops::DerefMut>::deref_mut') and ('vec::Vec<' in n or 'boxed::Box<' in n):
+        # &mut Vec<T> -> &mut [T]: the same place (so that a following sort/dedup is attributed to the vector)
+        return [(st, args[0])]
     if n.endswith('as std::clone::Clone>::clone') or n.endswith('::clone::Clone::clone'):
         v = px.deref_value(st, args[0])
         return [(st, v)]
